@@ -108,6 +108,10 @@ def year_as_number(t):
 
 
 PROVED_DETAIL = {
+    "C02_parse_render_name_offset": "{DD Mon YYYY, DD Month YYYY} HH:MM[:SS] + {+,-}{HH:MM, HH, HHMM}, year >= 100 (helper rdA)",
+    "C02_parse_render_comma_offset": "{Mon DD, YYYY; Month DD, YYYY} HH:MM[:SS] + {+,-}{HH:MM, HH, HHMM}, year >= 100 (helper rdA)",
+    "C02_parse_render_us_offset": "MM/DD/YYYY{T, space}HH:MM[:SS] + {+,-}{HH:MM, HH, HHMM}, dayfirst = yearfirst = False (helper rdA)",
+    "C02_parse_render_slash_offset": "YYYY/MM/DD HH:MM[:SS] + {+,-}{HH:MM, HH, HHMM} (helper rdA)",
     "C02_parse_render_dash_mon": "DD-Mon-YYYY x {date only, ' HH:MM', ' HH:MM:SS'}, all years (helper rdB)",
     "C02_parse_render_eu_dot": "DD.MM.YYYY x {date only, ' HH:MM', ' HH:MM:SS'}, dayfirst=True, all years (helper rdB)",
     "C02_parse_render_frac_DSlashYMD": "YYYY/MM/DD{T, space}HH:MM:SS{.,}f, k = 1..9 (helper rdB)",
@@ -182,6 +186,16 @@ def theorem_for(t):
                 return "C02_parse_render_frac_" + D
             if D in ("DDMonY", "DDMonthY", "DDashMon", "DMonDY", "DMonthDY", "DEUDot", "DEU") and J == "JSpace":
                 return "C02_parse_render_frac_" + D
+    # ---- helper rdA's families (coq/parse/RenderXOff*.v)
+    if O in ("OHH_MM", "OHH", "OHHMM") and T in ("THM", "THMS"):
+        if D in ("DDMonY", "DDMonthY") and J == "JSpace":
+            return "C02_parse_render_name_offset"
+        if D in ("DMonDY", "DMonthDY") and J == "JSpace":
+            return "C02_parse_render_comma_offset"
+        if D == "DUS" and J in ("JT", "JSpace"):
+            return "C02_parse_render_us_offset"
+        if D == "DSlashYMD" and J == "JSpace":
+            return "C02_parse_render_slash_offset"
     if O == "ONone" and jt in (("JNone", "TNone"), ("JSpace", "THM"), ("JSpace", "THMS")):
         if D == "DDashMon":
             return "C02_parse_render_dash_mon"
@@ -241,6 +255,17 @@ def theorem_for(t):
     if D == "DIso" and J in ("JT", "JSpace") and T in ("THM", "THMS") and O in ("OHH_MM", "OHH"):
         return "C02_parse_render_iso_offset"
     return None
+
+
+def ext_theorem_names():
+    """theorem names of the extension file coq/props/C02x.v (textual; the file is compiled by make / thorough)"""
+    import re
+    try:
+        src = open(os.path.join(C.COQ, "props", "C02x.v")).read()
+    except OSError:
+        return []
+    src = re.sub(r"\(\*.*?\*\)", "", src, flags=re.S)
+    return re.findall(r"^\s*Theorem\s+([A-Za-z0-9_']+)", src, flags=re.M)
 
 
 def gen_off(r):
@@ -317,7 +342,18 @@ def main():
 
         def _compile():
             try:
-                props_box["props"] = C.compile_props(CID)
+                pr = C.compile_props(CID)
+                if tier != "quick":
+                    # the extension file coq/props/C02x.v (further template theorems): thorough tier
+                    px = C.compile_props("C02x")
+                    pr = {"obligations": pr["obligations"] + px["obligations"],
+                          "discharged": pr["discharged"] + px["discharged"],
+                          "theorems": pr["theorems"] + px["theorems"],
+                          "assumptions": dict(list(pr["assumptions"].items()) + list(px["assumptions"].items())),
+                          "cmd": pr["cmd"] + " && " + px["cmd"],
+                          "log": pr["log"] if not pr["ok"] else (px["log"] if not px["ok"] else pr["log"]),
+                          "ok": pr["ok"] and px["ok"], "ext_ok": px["ok"], "ext_theorems": px["theorems"]}
+                props_box["props"] = pr
             except Exception as ex:  # pragma: no cover
                 props_box["props"] = {"obligations": 0, "discharged": 0, "theorems": [], "assumptions": {},
                                       "cmd": "coqc props/C02.v", "log": "compile_props failed: %r" % (ex,), "ok": False}
@@ -444,6 +480,21 @@ def main():
     if props is None:
         props_thread.join()
         props = props_box["props"]
+    ext_names = ext_theorem_names()
+    core_names = [n for n in props["theorems"] if n not in props.get("ext_theorems", [])]
+    ext_checked = "ext_theorems" in props
+
+    def thm_status(th):
+        """where the theorem of a template lives and whether this run compiled it"""
+        if th is None:
+            return "tested-only"
+        if th in core_names and props["ok"]:
+            return "%s [coq/props/C02.v]" % th
+        if th in ext_names:
+            if ext_checked:
+                return ("%s [coq/props/C02x.v]" % th) if props.get("ext_ok") else "tested-only"
+            return "%s [coq/props/C02x.v; compiled by the thorough tier and by setup, not in this quick run]" % th
+        return "tested-only"
     proved = [n for n in props["theorems"] if n.startswith("C02_parse_render")]
     if not props["ok"] and not verdict.violations:
         verdict.violation({"kind": "broken proof obligation", "theorem_file": "coq/props/C02.v",
@@ -464,10 +515,13 @@ def main():
         "samples": samples,
         "input_distribution": hist,
         "templates_well_formed": len(wf_templates),
-        "templates_status": {n: (th if th in props["theorems"] and props["ok"] else "tested-only")
-                             for n, th in sorted(tpl_thm.items())},
-        "templates_proved_count": sum(1 for th in tpl_thm.values() if th in props["theorems"] and props["ok"]),
-        "templates_tested_only_count": sum(1 for th in tpl_thm.values() if not (th in props["theorems"] and props["ok"])),
+        "templates_status": {n: thm_status(th) for n, th in sorted(tpl_thm.items())},
+        "templates_proved_count": sum(1 for th in tpl_thm.values() if thm_status(th) != "tested-only"),
+        "templates_proved_in_core_file_count": sum(1 for th in tpl_thm.values() if thm_status(th).endswith("[coq/props/C02.v]")),
+        "templates_tested_only_count": sum(1 for th in tpl_thm.values() if thm_status(th) == "tested-only"),
+        "extended_props": {"file": "coq/props/C02x.v", "theorems": len(ext_names),
+                           "checked_in": "thorough tier and setup (props/*.vo are make targets)",
+                           "compiled_in_this_run": ext_checked, "names": ext_names},
         "templates_proved": proved,
         "templates_proved_detail": {n: PROVED_DETAIL.get(n, (
             "YYYY-MM-DD{T|space}HH:MM:SS{.,}f (k = 1..9) followed by the zone form named in the theorem (helper rdB)"
